@@ -38,8 +38,59 @@ Theorem C02_order_kept : forall pid es es', remove_first_ret pid es = Some es' -
   exists a x b, es = a ++ x :: b /\ es' = a ++ b /\ re_pid x = pid.
 Proof. exact remove_first_ret_order. Qed.
 
+From Minimq Require Import Machine Run WireInv Wire Healthy Owed Replay.
+Open Scope N_scope.
+
+(* ---- the replay on the wire ---- *)
+(* What the queues owe after a resumed connect is a function of the queues at the moment connect() was called: every
+   owed acknowledgement, every pending PUBREL, every retained packet — each queue in its order, each retained packet
+   with DUP set and otherwise byte for byte as accepted. *)
+Theorem C02_resumed_connect_owes_replay : forall o, OInv o -> owed (compact (arm_replay o)) = replay_bytes o.
+Proof. exact owed_compact_arm_replay. Qed.
+
+Theorem C02_resumed_connect_keeps_queues : forall fuel w w',
+  op_connect fuel w = (w', ODone 1) -> s_ob (w_sess w') = compact (arm_replay (s_ob (w_sess w))).
+Proof. exact connect_resumed_outbound. Qed.
+
+(* On a behaving transport the first drive()/poll() after the resumed connect puts exactly that on the wire: every
+   retained publish once, with DUP, nothing else. *)
+Theorem C02_replay_on_wire : forall f1 f2 adv w w1 w1' w2 pr,
+  Inv (w_sess w) -> op_connect f1 w = (w1, ODone 1) -> w_sess w1' = w_sess w1 ->
+  Hd w1' -> NA w1' -> drive_loop f2 adv w1' = (w2, ODone pr) ->
+  w_wire w2 = w_wire w1' ++ replay_bytes (s_ob (w_sess w)).
+Proof. exact reconnect_replays. Qed.
+
+(* On ANY transport, however it cuts the writes: when the drain the user operations run comes to its end, the same bytes
+   have been accepted and nothing is left to write. *)
+Theorem C02_replay_on_wire_any_transport : forall f1 f2 w w1 w1' w2,
+  Inv (w_sess w) -> op_connect f1 w = (w1, ODone 1) -> w_sess w1' = w_sess w1 ->
+  WInv (w_sess w1') -> PQ w1' -> flush_outbound f2 w1' = (w2, ODone tt) ->
+  w_wire w2 = w_wire w1' ++ replay_bytes (s_ob (w_sess w)) /\ next_step (s_ob (w_sess w2)) = None.
+Proof. exact reconnect_replays_any_transport. Qed.
+
+(* computed: PUBACK 7, PUBREL 2, PUBLISH 1 (DUP) replayed — whole, and three bytes at a time *)
+Theorem C02_replay_example :
+  snd (op_connect FUEL ex_new) = ODone 1 /\
+  replay_bytes (s_ob (w_sess ex_new)) = [64; 3; 0; 7; 0] ++ [98; 3; 0; 2; 0] ++ [58; 9; 0; 1; 116; 0; 1; 0; 1; 2; 3] /\
+  snd (op_drive FUEL ex_conn) = ODone None /\
+  w_wire (fst (op_drive FUEL ex_conn)) = w_wire ex_conn ++ replay_bytes (s_ob (w_sess ex_new)) /\
+  snd (flush_outbound FUEL ex_frag) = ODone tt /\
+  w_wire (fst (flush_outbound FUEL ex_frag)) = w_wire ex_frag ++ replay_bytes (s_ob (w_sess ex_new)).
+Proof. exact replay_example. Qed.
+
+Theorem C02_replay_hyps_met :
+  Inv (w_sess ex_new) /\ w_sess ex_conn = w_sess (fst (op_connect FUEL ex_new)) /\ Hd ex_conn /\ NA ex_conn /\
+  w_sess ex_frag = w_sess (fst (op_connect FUEL ex_new)) /\ WInv (w_sess ex_frag) /\ PQ ex_frag.
+Proof. exact replay_hyps_met. Qed.
+
 Print Assumptions C02_never_lost.
 Print Assumptions C02_replay_armed.
 Print Assumptions C02_not_twice.
 Print Assumptions C02_dup_only.
 Print Assumptions C02_order_kept.
+Print Assumptions C02_resumed_connect_owes_replay.
+Print Assumptions C02_resumed_connect_keeps_queues.
+Print Assumptions C02_replay_on_wire.
+Print Assumptions C02_replay_on_wire_any_transport.
+Print Assumptions C02_replay_example.
+Print Assumptions C02_replay_hyps_met.
